@@ -9,7 +9,7 @@ d,rc=sys.argv[1],int(sys.argv[2])
 m=json.load(open(d+'/meta.json'))
 log=open('/tmp/seedrun-'+d.split('/')[-1]+'.txt').read()
 viol=[l.strip() for l in log.splitlines() if l.startswith('VIOLATION') or l.startswith('  class=')]
-m['check_result']={"command":"tools/run_seeded.sh %s quick  (git -C /repo apply; ./check %s quick; git -C /repo checkout -- .)"%(d,m['property']),"exit":rc,"detected":rc==1,"first_reports":viol[:4]}
+m["check_result"]={"command":"tools/run_seeded.sh %s quick  (git -C /repo apply; ./check %s quick; git -C /repo checkout -- .)"%(d,m.get("checked_by",m["property"])),"exit":rc,"detected":rc==1,"first_reports":viol[:4]}
 json.dump(m,open(d+'/meta.json','w'),indent=1)
 PY
 done
